@@ -120,17 +120,24 @@ def md5Block (st : UInt32 × UInt32 × UInt32 × UInt32) (m : Array UInt8) (off 
     b := b + rotl32 f2 md5S[i]!
   return (a0 + a, b0 + b, c0 + c, d0 + d)
 
-def md5 (msg : Bytes) : Bytes := Id.run do
+def md5State (msg : Bytes) : UInt32 × UInt32 × UInt32 × UInt32 := Id.run do
   let m := padTo msg 64 56 ++ (le64Bytes (UInt64.ofNat (8 * msg.length))).toArray
   let mut st : UInt32 × UInt32 × UInt32 × UInt32 := (0x67452301, 0xefcdab89, 0x98badcfe, 0x10325476)
   for k in [0:m.size / 64] do
     st := md5Block st m (64 * k)
-  let (a, b, c, d) := st
-  return le32Bytes a ++ le32Bytes b ++ le32Bytes c ++ le32Bytes d
+  return st
+
+def md5 (msg : Bytes) : Bytes :=
+  let st := md5State msg
+  le32Bytes st.1 ++ le32Bytes st.2.1 ++ le32Bytes st.2.2.1 ++ le32Bytes st.2.2.2
 
 /-! ## SHA-256 (FIPS 180-4 §6.2) -/
 
-def sha256Block (h : Array UInt32) (m : Array UInt8) (off : Nat) : Array UInt32 := Id.run do
+/-- eight working variables / hash words -/
+structure H8 (α : Type) where
+  (a b c d e f g h : α)
+
+def sha256Block (h : H8 UInt32) (m : Array UInt8) (off : Nat) : H8 UInt32 := Id.run do
   let mut w : Array UInt32 := Array.emptyWithCapacity 64
   for t in [0:16] do
     w := w.push (be32At m (off + 4 * t))
@@ -140,14 +147,14 @@ def sha256Block (h : Array UInt32) (m : Array UInt8) (off : Nat) : Array UInt32 
     let s0 := rotr32 x 7 ^^^ rotr32 x 18 ^^^ (x >>> 3)
     let s1 := rotr32 y 17 ^^^ rotr32 y 19 ^^^ (y >>> 10)
     w := w.push (s1 + w[t-7]! + s0 + w[t-16]!)
-  let mut a := h[0]!
-  let mut b := h[1]!
-  let mut c := h[2]!
-  let mut d := h[3]!
-  let mut e := h[4]!
-  let mut f := h[5]!
-  let mut g := h[6]!
-  let mut hh := h[7]!
+  let mut a := h.a
+  let mut b := h.b
+  let mut c := h.c
+  let mut d := h.d
+  let mut e := h.e
+  let mut f := h.f
+  let mut g := h.g
+  let mut hh := h.h
   for t in [0:64] do
     let S1 := rotr32 e 6 ^^^ rotr32 e 11 ^^^ rotr32 e 25
     let ch := (e &&& f) ^^^ ((~~~ e) &&& g)
@@ -156,18 +163,25 @@ def sha256Block (h : Array UInt32) (m : Array UInt8) (off : Nat) : Array UInt32 
     let maj := (a &&& b) ^^^ (a &&& c) ^^^ (b &&& c)
     let t2 := S0 + maj
     hh := g; g := f; f := e; e := d + t1; d := c; c := b; b := a; a := t1 + t2
-  return #[h[0]! + a, h[1]! + b, h[2]! + c, h[3]! + d, h[4]! + e, h[5]! + f, h[6]! + g, h[7]! + hh]
+  return ⟨h.a + a, h.b + b, h.c + c, h.d + d, h.e + e, h.f + f, h.g + g, h.h + hh⟩
 
-def sha256 (msg : Bytes) : Bytes := Id.run do
+def h8OfArray {α} [Inhabited α] (x : Array α) : H8 α := ⟨x[0]!, x[1]!, x[2]!, x[3]!, x[4]!, x[5]!, x[6]!, x[7]!⟩
+
+def sha256State (msg : Bytes) : H8 UInt32 := Id.run do
   let m := padTo msg 64 56 ++ (be64Bytes (UInt64.ofNat (8 * msg.length))).toArray
-  let mut h := sha256H0
+  let mut h := h8OfArray sha256H0
   for k in [0:m.size / 64] do
     h := sha256Block h m (64 * k)
-  return h.toList.flatMap be32Bytes
+  return h
+
+def sha256 (msg : Bytes) : Bytes :=
+  let h := sha256State msg
+  be32Bytes h.a ++ be32Bytes h.b ++ be32Bytes h.c ++ be32Bytes h.d ++
+  be32Bytes h.e ++ be32Bytes h.f ++ be32Bytes h.g ++ be32Bytes h.h
 
 /-! ## SHA-512 / SHA-384 (FIPS 180-4 §6.4, §6.5) -/
 
-def sha512Block (h : Array UInt64) (m : Array UInt8) (off : Nat) : Array UInt64 := Id.run do
+def sha512Block (h : H8 UInt64) (m : Array UInt8) (off : Nat) : H8 UInt64 := Id.run do
   let mut w : Array UInt64 := Array.emptyWithCapacity 80
   for t in [0:16] do
     w := w.push (be64At m (off + 8 * t))
@@ -177,14 +191,14 @@ def sha512Block (h : Array UInt64) (m : Array UInt8) (off : Nat) : Array UInt64 
     let s0 := rotr64 x 1 ^^^ rotr64 x 8 ^^^ (x >>> 7)
     let s1 := rotr64 y 19 ^^^ rotr64 y 61 ^^^ (y >>> 6)
     w := w.push (s1 + w[t-7]! + s0 + w[t-16]!)
-  let mut a := h[0]!
-  let mut b := h[1]!
-  let mut c := h[2]!
-  let mut d := h[3]!
-  let mut e := h[4]!
-  let mut f := h[5]!
-  let mut g := h[6]!
-  let mut hh := h[7]!
+  let mut a := h.a
+  let mut b := h.b
+  let mut c := h.c
+  let mut d := h.d
+  let mut e := h.e
+  let mut f := h.f
+  let mut g := h.g
+  let mut hh := h.h
   for t in [0:80] do
     let S1 := rotr64 e 14 ^^^ rotr64 e 18 ^^^ rotr64 e 41
     let ch := (e &&& f) ^^^ ((~~~ e) &&& g)
@@ -193,17 +207,28 @@ def sha512Block (h : Array UInt64) (m : Array UInt8) (off : Nat) : Array UInt64 
     let maj := (a &&& b) ^^^ (a &&& c) ^^^ (b &&& c)
     let t2 := S0 + maj
     hh := g; g := f; f := e; e := d + t1; d := c; c := b; b := a; a := t1 + t2
-  return #[h[0]! + a, h[1]! + b, h[2]! + c, h[3]! + d, h[4]! + e, h[5]! + f, h[6]! + g, h[7]! + hh]
+  return ⟨h.a + a, h.b + b, h.c + c, h.d + d, h.e + e, h.f + f, h.g + g, h.h + hh⟩
 
-def sha512Core (h0 : Array UInt64) (msg : Bytes) : Array UInt64 := Id.run do
+def sha512Core (h0 : Array UInt64) (msg : Bytes) : H8 UInt64 := Id.run do
   -- 128-bit big-endian length; messages here are far below 2^64 bits
   let m := padTo msg 128 112 ++ (be64Bytes 0 ++ be64Bytes (UInt64.ofNat (8 * msg.length))).toArray
-  let mut h := h0
+  let mut h := h8OfArray h0
   for k in [0:m.size / 128] do
     h := sha512Block h m (128 * k)
   return h
 
-def sha512 (msg : Bytes) : Bytes := (sha512Core sha512H0 msg).toList.flatMap be64Bytes
-def sha384 (msg : Bytes) : Bytes := ((sha512Core sha384H0 msg).toList.take 6).flatMap be64Bytes
+def sha512 (msg : Bytes) : Bytes :=
+  let h := sha512Core sha512H0 msg
+  be64Bytes h.a ++ be64Bytes h.b ++ be64Bytes h.c ++ be64Bytes h.d ++
+  be64Bytes h.e ++ be64Bytes h.f ++ be64Bytes h.g ++ be64Bytes h.h
+def sha384 (msg : Bytes) : Bytes :=
+  let h := sha512Core sha384H0 msg
+  be64Bytes h.a ++ be64Bytes h.b ++ be64Bytes h.c ++ be64Bytes h.d ++ be64Bytes h.e ++ be64Bytes h.f
+
+/-! Output lengths (the only facts about the hashes used by the theorems). -/
+theorem md5_length (m : Bytes) : (md5 m).length = 16 := by simp [md5, le32Bytes]
+theorem sha256_length (m : Bytes) : (sha256 m).length = 32 := by simp [sha256, be32Bytes]
+theorem sha384_length (m : Bytes) : (sha384 m).length = 48 := by simp [sha384, be64Bytes, be32Bytes]
+theorem sha512_length (m : Bytes) : (sha512 m).length = 64 := by simp [sha512, be64Bytes, be32Bytes]
 
 end OxiVerif.Crypto
